@@ -428,8 +428,8 @@ func (p *program) parseArgs(args []string) error {
 	}
 
 	p.packages = p.flagSet.Args()
-	p.filters.enable = strings.Split(*enable, ",")
-	p.filters.disable = strings.Split(*disable, ",")
+	p.filters.enable = splitKeys(*enable)
+	p.filters.disable = splitKeys(*disable)
 
 	if p.shorterErrLocation {
 		wd, err := os.Getwd()
@@ -442,6 +442,16 @@ func (p *program) parseArgs(args []string) error {
 	}
 
 	return nil
+}
+
+// splitKeys splits a comma-separated -enable/-disable value; blanks around the
+// elements are dropped, as the analyzer front-end does ("#style, #performance").
+func splitKeys(s string) []string {
+	keys := strings.Split(s, ",")
+	for i := range keys {
+		keys[i] = strings.TrimSpace(keys[i])
+	}
+	return keys
 }
 
 func addTrailingSlash(s string) string {
